@@ -150,6 +150,19 @@ Fixpoint empty_round (tr : list label) (in_round delivered : bool) : bool :=
   | _ :: tr' => empty_round tr' in_round delivered
   end.
 
+(** "pending when execution can no longer proceed": the executor must not enter the idle handler
+    while a promise it still awaits holds an unread result.  The harness declares a visible promise
+    abandoned when it finds its result unread at an idle entry; if the executor reads it after all
+    ([LConsume] after [LAbandon]), it had entered the idle handler although it could proceed — and
+    the work revealed by that result came too late for the batch calls of that round. *)
+Fixpoint consume_after_abandon (tr : list label) (ab : list nat) : option nat :=
+  match tr with
+  | [] => None
+  | LAbandon w :: tr' => consume_after_abandon tr' (w :: ab)
+  | LConsume w :: tr' => if existsb (Nat.eqb w) ab then Some w else consume_after_abandon tr' ab
+  | _ :: tr' => consume_after_abandon tr' ab
+  end.
+
 (** a round that both flushes and receives *)
 Fixpoint flush_then_recv (tr : list label) (flushed : bool) : bool :=
   match tr with
@@ -242,6 +255,8 @@ Definition check (c : sexp) : sexp :=
                       if negb cancelled && negb (bytes_eqb respa resps) && negb alt_ok then v_oracle_fail "response-differs-from-synchronous" []
                       else if negb (Nat.eqb leak 0) then v_oracle_fail "goroutine-blocked-after-request" [of_nat leak]
                       else if empty_round tr false false then v_oracle_fail "idle-round-filled-no-promise-of-this-execution" []
+                      else if match consume_after_abandon tr [] with Some _ => true | None => false end
+                           then v_oracle_fail "idle-entered-while-an-awaited-result-was-unread" []
                       else
                         (* ---- the model as an acceptor of the observed history ---- *)
                         (* the code that exists ([current]); a history it rejects is tried against
